@@ -81,6 +81,9 @@ def handwritten():
     # smuggling-ish
     S.append(({}, [(REQ, b'POST /s HTTP/1.1\r\nHost: h\r\nContent-Length: 4\r\nTransfer-Encoding: chunked\r\n\r\n0\r\n\r\n'), (RES, ok2), (CLOSE, None)]))
     S.append(({}, [(REQ, b'GET http://a.example/p HTTP/1.1\r\nHost: b.example\r\n\r\n'), (RES, ok2), (CLOSE, None)]))
+    # blank / blank-padded chunk-size lines (skipped by the response parser), chunk extensions, trailers
+    S.append(({}, [(REQ, get), (RES, b'HTTP/1.1 200 OK\r\nTransfer-Encoding: chunked\r\n\r\n\r\n\r\n \r\n\r\n3\r\nabc\r\n\r\n\r\n 2;x=y\r\nde\r\n0\r\nT: 1\r\n\r\n'), (CLOSE, None)]))
+    S.append(({}, [(REQ, get), (RES, b'HTTP/1.1 200 OK\r\nTransfer-Encoding: chunked\r\n\r\n\n\n\n1\na\n\n\n0\n\n'), (CLOSE, None)]))
     return S
 
 
